@@ -27,6 +27,7 @@ fn run_child(harness: &str, cfg: Value) {
     let ctx = serde_json::json!({"harness": harness, "config": cfg});
     let body: Box<dyn Fn() + Send + Sync> = match harness {
         "c01" => Box::new(move || harness::queue::c01(&cfg)),
+        "c01_multi" => Box::new(move || harness::queue::c01_multi(&cfg)),
         "c04" => Box::new(move || harness::queue::c04(&cfg)),
         "c05_drop" => Box::new(move || harness::queue::c05_drop(&cfg)),
         "c05_forget" => Box::new(move || harness::queue::c05_forget(&cfg)),
